@@ -371,7 +371,7 @@ def plkIdentity (n : Nat) (g : α) (cv scv : List α) (β γ αc ν : α) : Bool
   F.beq num (F.mul (c 5) nun1)
 
 def plkVerify (n : Nat) (g : α) (cv scv : List α) (β γ αc ν : α) (kzgBatch kzgShift : Bool) : Bool :=
-  kzgBatch && kzgShift && genCheck F n g && plkIdentity F n g cv scv β γ αc ν
+  kzgBatch && kzgShift && sizeOk n && genCheck F n g && plkIdentity F n g cv scv β γ αc ν
 
 /-- every looked-up value is in the table -/
 def isSubset (f t : List α) : Bool := f.all (fun x => t.any (fun y => F.beq x y))
